@@ -25,6 +25,11 @@ Definition py_to_bytes_le (x n : Z) : option bytes :=
 Definition py_pack_le (size : nat) (x : Z) : option bytes :=
   if (0 <=? x) && (x <? 2 ^ (8 * Z.of_nat size)) then Some (le_bytes size x) else None.
 
+(* struct.pack("<i" | "<q", x) : two's complement, struct.error outside the signed range *)
+Definition py_pack_le_signed (size : nat) (x : Z) : option bytes :=
+  let half := 2 ^ (8 * Z.of_nat size - 1) in
+  if (- half <=? x) && (x <? half) then Some (le_bytes size (x mod (2 * half))) else None.
+
 (* struct.unpack("<H" | ..., b)[0] : struct.error unless len(b) is exactly the size *)
 Definition py_unpack_le (size : nat) (b : bytes) : option Z :=
   if Nat.eqb (length b) size then Some (le_val b) else None.
